@@ -229,7 +229,12 @@ def reproduce(net, work, dc, replace_dcline=False, f=1.):
     da = np.abs((da + 180.) % 360. - 180.)          # angles are only defined modulo 360 degree
     if not (da.max() <= (1e-3 if not dc else 1e-5) * f):
         out.append("power flow of the OPF dispatch gives other angles: max |dva| = %.3e degree" % da.max())
-    dp = np.abs(n2.res_ext_grid.p_mw.values - work.res_ext_grid.p_mw.values)
+    # the share of several ext_grids at one (fused) bus is not determined by the power flow equations: compare the sum per bus group
+    from ..oracles import balance
+    grp = {b: k for k, members in enumerate(balance.fused_groups(net)) for b in members}
+    key = np.array([grp[b] for b in net.ext_grid.bus.values])
+    dp = np.array([abs(np.nansum(n2.res_ext_grid.p_mw.values[key == k]) - np.nansum(work.res_ext_grid.p_mw.values[key == k]))
+                   for k in np.unique(key)])
     if not (dp.max() <= (4 * VIOL_PU * sn * nb + 1e-6) * f):
         out.append("slack power of the reproduced power flow differs by %.3e MW" % dp.max())
     for et, cols in (("line", ("p_from_mw", "p_to_mw")), ("trafo", ("p_hv_mw", "p_lv_mw"))):
